@@ -17,6 +17,7 @@ pub mod c14;
 pub mod c15;
 pub mod c16;
 pub mod c17;
+pub mod c18;
 pub mod c19;
 pub mod c20;
 
@@ -39,6 +40,7 @@ pub fn all() -> Vec<(&'static str, fn() -> PropertyDef)> {
         ("C15", c15::def as fn() -> PropertyDef),
         ("C16", c16::def as fn() -> PropertyDef),
         ("C17", c17::def as fn() -> PropertyDef),
+        ("C18", c18::def as fn() -> PropertyDef),
         ("C19", c19::def as fn() -> PropertyDef),
         ("C20", c20::def as fn() -> PropertyDef),
     ]
